@@ -352,6 +352,7 @@ func propC02(w *World, r *Report) {
 	}
 	checkSettingsImmutable(w, r, "P1", "RecorderConfig:PreviewSecs", "ThermalRecorder:PreviewSecs", "Config:Recorder") // preview-secs reaches the processor as configured
 	checkRingAdvancesOncePerFrame(w, r, runs, "P2", true, false)
+	checkRingSlotFilledByDeepCopy(w, r, runs, "P2")
 	checkRingCapacityExact(w, r, "P1")
 }
 
@@ -1124,6 +1125,9 @@ func propC13(w *World, r *Report) {
 	} else {
 		r.Check(n > 0, "B2", "bad frame: the parser's error is returned unchanged", "-", fmt.Sprintf("%d exit contexts", n))
 	}
+	// ... and so do the continuous and test recordings: whatever the stop forced by a bad frame returns, their
+	// bookkeeping agrees with the sink afterwards (the next good frame opens a new file instead of writing to a closed one)
+	checkSinkBookkeeping(w, r, runs.fault, "B2", roleContinuous, roleTest)
 	// B3
 	ps := eventsOfKind(run, "obs:parse", -1)
 	for _, ev := range ps {
@@ -1644,4 +1648,92 @@ func returnsWithout(fn *ssa.Function, must func(ssa.Instruction) bool) bool {
 		return false
 	}
 	return len(fn.Blocks) > 0 && walk(fn.Blocks[0])
+}
+
+// checkRingSlotFilledByDeepCopy: a frame enters the pre-trigger ring only as a deep copy. In the processor's methods the
+// slot handed out by the ring's Current() is filled by the frame parser or by cptvframe.Frame.Copy; no method stores
+// into the slot's fields itself or copies row tables into it (copy(slot.Pix, src.Pix) copies the row HEADERS: every slot
+// would share its pixels with the caller's frame, and the pre-trigger frames of a recording would all show the last one).
+func checkRingSlotFilledByDeepCopy(w *World, r *Report, runs *motionRuns, rule string) {
+	c := runs.model.C
+	fills, slots := 0, 0
+	for fn := range w.AllFuncs {
+		if rv := fn.Signature.Recv(); rv == nil || !isPtrTo(rv.Type(), c.T) || len(fn.Blocks) == 0 {
+			continue
+		}
+		for _, b := range fn.Blocks {
+			for _, in := range b.Instrs {
+				cur, ok := in.(*ssa.Call)
+				if !ok {
+					continue
+				}
+				callee := cur.Call.StaticCallee()
+				if callee == nil || callee.Name() != "Current" || len(cur.Call.Args) == 0 {
+					continue
+				}
+				isRing := false
+				switch a := cur.Call.Args[0].(type) {
+				case *ssa.UnOp:
+					if fa, ok := a.X.(*ssa.FieldAddr); ok && fa.Field == runs.model.ringFld && isPtrTo(fa.X.Type(), c.T) {
+						isRing = true
+					}
+				case *ssa.FieldAddr:
+					isRing = a.Field == runs.model.ringFld && isPtrTo(a.X.Type(), c.T)
+				}
+				if !isRing || cur.Referrers() == nil {
+					continue
+				}
+				slots++
+				for _, rf := range *cur.Referrers() {
+					switch x := rf.(type) {
+					case *ssa.FieldAddr:
+						// slot.F: no store to it, and slot.Pix never the destination of a builtin copy
+						if x.Referrers() == nil {
+							continue
+						}
+						for _, u := range *x.Referrers() {
+							if st, ok := u.(*ssa.Store); ok && st.Addr == ssa.Value(x) && isPixField(x) {
+								r.Fail(rule, fn.Name()+": the ring slot is filled by a deep copy", w.InstrPos(st), "the row table of the slot is assigned (aliases the source's pixels)", "")
+								fills++
+							}
+							if ld, ok := u.(*ssa.UnOp); ok && ld.Referrers() != nil {
+								for _, uu := range *ld.Referrers() {
+									if ia, ok := uu.(*ssa.IndexAddr); ok && ia.Referrers() != nil && isPixField(x) {
+										// copy(slot.Pix[y], ...) row by row: a deep copy written out by hand
+										for _, u3 := range *ia.Referrers() {
+											if rowLd, ok := u3.(*ssa.UnOp); ok && rowLd.Referrers() != nil {
+												for _, u4 := range *rowLd.Referrers() {
+													if cc, ok := u4.(*ssa.Call); ok {
+														if bi, ok := cc.Call.Value.(*ssa.Builtin); ok && bi.Name() == "copy" && cc.Call.Args[0] == ssa.Value(rowLd) {
+															fills++
+															r.Pass(rule, fn.Name()+": the ring slot is filled by a deep copy", w.InstrPos(cc), "row-by-row copy of the pixels")
+														}
+													}
+												}
+											}
+										}
+									}
+									if cc, ok := uu.(*ssa.Call); ok {
+										if bi, ok := cc.Call.Value.(*ssa.Builtin); ok && bi.Name() == "copy" && len(cc.Call.Args) == 2 && cc.Call.Args[0] == ssa.Value(ld) {
+											r.Fail(rule, fn.Name()+": the ring slot is filled by a deep copy", w.InstrPos(cc), "copy() into the slot's "+structOf(x.X.Type()).Field(x.Field).Name()+" table copies row headers, not pixels", "")
+											fills++
+										}
+									}
+								}
+							}
+						}
+					case *ssa.Call:
+						if cl := x.Call.StaticCallee(); cl != nil && cl.Name() == "Copy" && cl.Signature.Recv() != nil && typeIs(cl.Signature.Recv().Type(), "github.com/TheCacophonyProject/go-cptv/cptvframe", "Frame") && x.Call.Args[0] == ssa.Value(cur) {
+							fills++
+							r.Pass(rule, fn.Name()+": the ring slot is filled by a deep copy", w.InstrPos(x), "cptvframe.Frame.Copy")
+						} else if x.Call.StaticCallee() == nil && !x.Call.IsInvoke() && len(x.Call.Args) >= 2 && x.Call.Args[1] == ssa.Value(cur) {
+							fills++
+							r.Pass(rule, fn.Name()+": the ring slot is filled by a deep copy", w.InstrPos(x), "frame parser")
+						}
+					}
+				}
+			}
+		}
+	}
+	r.Check(slots >= 2 && fills >= 2, rule, "ring slots obtained and filled in the processor (live path and ProcessFrame)", "-", fmt.Sprintf("%d slots, %d fills", slots, fills))
 }
